@@ -54,6 +54,10 @@ def build_grammar(rng, rows, operand_kind, paren, ignore, ternary):
         operand = ('re', '[0-9]', False)
     elif operand_kind == 'ref':
         operand = ('ref', 'N')
+    elif operand_kind == 'choice':
+        # an ordered choice written directly as the operand, an earlier alternative being a proper
+        # prefix of a later one: the operand is what the choice commits to, mixfix rows or not
+        operand = ('alt', [('str', '1'), ('str', '12'), ('str', '2')])
     else:
         operand = ('ref', 'Num')
     trows = []
@@ -267,7 +271,7 @@ def run_shard(rec):
     rng = rec.rng
     idx = 0
     for rows in fixed_tables():
-        for operand_kind in ('lit', 'ref', 'class'):
+        for operand_kind in ('lit', 'ref', 'class', 'choice'):
             for paren in (None, 'discard', 'class'):
                 for ignore in (False, True):
                     idx += 1
@@ -279,7 +283,7 @@ def run_shard(rec):
             rec.count('cut_by_time')
             break
         rows = random_table(rng)
-        run_table(rec, rng, rows, rng.choice(['lit', 'ref', 'class']),
+        run_table(rec, rng, rows, rng.choice(['lit', 'ref', 'class', 'choice']),
                   rng.choice([None, None, 'discard', 'class']), rng.random() < 0.4,
                   rng.random() < 0.15, quick)
 
